@@ -1617,7 +1617,22 @@ func (b *Bounds) transfer(fs FactSet, n ast.Node) {
 				}
 				for i, l := range y.Lhs {
 					lt := lts[i]
-					if lt == nil || lt.K != TVar || lt.Typ == nil {
+					if lt == nil || lt.K != TVar {
+						continue
+					}
+					if lt.Typ == nil {
+						// a slice: its length
+						if _, isSlice := info.TypeOf(l).Underlying().(*types.Slice); isSlice {
+							if n := b.lenOfExpr(y.Rhs[i]); n != nil {
+								for _, o := range lts {
+									if o != nil && mentions(n, o.key) {
+										indep = false
+									}
+								}
+								ll := mkTerm(&BTerm{K: TLen, Args: []*BTerm{lt}, Typ: types.Typ[types.Int]})
+								gen = append(gen, b.eqFact(ll, n, b.F.Str(y)+" ("+b.F.At(y)+")"))
+							}
+						}
 						continue
 					}
 					rt := b.Term(y.Rhs[i])
